@@ -236,6 +236,28 @@ def fingerprint(relpath, names):
     return out
 
 
+def safe_oracle(fn):
+    """an oracle evaluates the property on the IMPLEMENTATION; if the implementation raises while doing what the
+    property says it can do, that is a failing input (reported with the exception), not a harness crash"""
+    import functools
+    import traceback
+
+    @functools.wraps(fn)
+    def wrapper(args):
+        try:
+            return fn(args)
+        except Exception as e:  # noqa
+            tb = traceback.extract_tb(e.__traceback__)
+            where = [f for f in tb if f.filename.startswith(REPO)]
+            if not where:
+                raise
+            last = where[-1]
+            text = "implementation raised %s: %s (at %s:%d in %s)" % (
+                type(e).__name__, str(e)[:200], os.path.relpath(last.filename, REPO), last.lineno, last.name)
+            return False, {"exception": type(e).__name__, "message": str(e)[:300]}, {"exception": None}, text
+    return wrapper
+
+
 # ------------------------------------------------------------------------------------------------
 # known findings
 # ------------------------------------------------------------------------------------------------
